@@ -696,6 +696,175 @@ def gen_merge_case(rng, tier='quick', dim=None, ndim_in=None):
     return case
 
 
+SYS_AFF = [[2.0, 0.0, 0.0, -8.0], [0.0, 0.5, 0.0, 3.0], [0.0, 0.0, 1.5, 10.5], [0.0, 0.0, 0.0, 1.0]]
+
+
+def systematic_merge_cases():
+    """A DETERMINISTIC block of small merge cases (no randomness: every seed contains all of them), one key per case:
+    merge axis kind {slice axis 0/1/2, non-slice spatial (with and without a slice dimension), time, vector}
+    x input dimensionality {3, 4, 5} (incl. (X,Y,Z,1), (X,Y,Z,1,V), (X,Y,Z,T,1) where the merge axis allows)
+    x EVERY classification the key can have in the inputs (valid for the shape, multiplicity != 1)
+    x value pattern {all different, constant per volume, repeating per volume, equal across inputs, one constant}
+    with T, V in 2..3, 1..2 slices per input, 2 inputs (3 for the 'all different' pattern).
+    Inputs are valid and nondegenerate but in general NOT canonical (e.g. a per-volume-constant list stored in
+    ('global','slices')).  Outside the regions of N1 / N3 / N4.  Same case format as gen_merge_case."""
+    configs = []       # (axis name, input shape, sdim, dim)
+    for d in (0, 1, 2):                                     # slice axis: one slice per input
+        for tail in ([], [2], [3], [2, 3], [3, 2], [1, 2]):
+            sh = [2, 2, 2] + tail
+            sh[d] = 1
+            configs.append(('slice%d' % d, sh, d, d))
+    for sd, d in ((2, 0), (0, 1), (None, 1)):               # non-slice spatial axis, 1 or 2 slices per input
+        for S in ((1, 2) if sd is not None else (1,)):
+            for tail in ([], [2], [3, 2], [1, 2]):
+                if sd is None and not tail:
+                    continue
+                sh = [2, 2, 2] + tail
+                sh[d] = 1
+                if sd is not None:
+                    sh[sd] = S
+                configs.append(('nonslice%d' % d, sh, sd, d))
+    for S in (1, 2):                                        # time axis
+        for tail in ([], [1], [1, 2], [1, 3]):
+            sh = [2, 1, S] + tail
+            configs.append(('time', sh, 2, 3))
+    for S in (1, 2):                                        # vector axis
+        for tail in ([], [2], [3], [2, 1]):
+            sh = [1, 2, S] + tail
+            configs.append(('vector', [sh[0], sh[1], sh[2]] + tail, 2, 4))
+    patterns = ['alldiff', 'constvol', 'repvol', 'equal', 'oneconst']
+    out = []
+    for axis, sh, sd, dim in configs:
+        d_in = dims({'shape': sh, 'sdim': sd})
+        S = d_in[0]
+        for c in PREF:
+            if not class_ok(sh, c):
+                continue
+            if PYCLS[c][1] == 'slices' and sd is None:
+                continue
+            m = mult(d_in, c)
+            if c != 'GConst' and m == 1:
+                continue
+            for pat in patterns:
+                if c == 'GConst' and pat in ('constvol', 'repvol'):
+                    continue
+                if axis.startswith('nonslice') and pat in ('constvol', 'oneconst'):
+                    continue
+                n = 3 if pat == 'alldiff' else 2
+                exts = []
+                for i in range(n):
+                    vals = []
+                    for j in range(m):
+                        if pat == 'alldiff':
+                            v = 1000 * (i + 1) + j
+                        elif pat == 'constvol':
+                            v = 1000 * (i + 1) + (j // S if PYCLS[c][1] == 'slices' else j)
+                        elif pat == 'repvol':
+                            v = 1000 * (i + 1) + (j % S if PYCLS[c][1] == 'slices' else 0)
+                        elif pat == 'equal':
+                            v = 7 + j
+                        else:
+                            v = 5
+                        vals.append(v)
+                    exts.append(mk_E(sh, sd, copy.deepcopy(SYS_AFF), {'k': (c, vals)}))
+                out.append({'kind': 'sys/%s/%dD%s/%s/%s' % (axis, len(sh), '-t1' if len(sh) > 3 and 1 in sh[3:] else '', c, pat),
+                            'exts': exts, 'dim': dim, 'aff': None, 'sdim_arg': None})
+    return out
+
+
+def _sys_values(c, m, S, pat):
+    vals = []
+    for j in range(m):
+        if pat == 'alldiff':
+            v = 100 + j
+        elif pat == 'constvol':
+            v = 100 + (j // S if PYCLS[c][1] == 'slices' else j)
+        elif pat == 'repvol':
+            v = 100 + (j % S if PYCLS[c][1] == 'slices' else 0)
+        else:
+            v = 5
+        vals.append(v)
+    return vals
+
+
+def _sys_subset_configs():
+    """(shape, slice dim): 3/4/5-D, T and V in 2..3, S in 1..3, spatial extents not all equal, incl. (X,Y,Z,1,V) and the
+    trailing-singleton shapes (X,Y,Z,1), (X,Y,Z,T,1)."""
+    tails = ([], [2], [3], [2, 3], [3, 2], [1, 2], [1], [2, 1])
+    out = []
+    for sd, Ss in ((None, (None,)), (0, (2,)), (1, (2,)), (2, (1, 3))):
+        for S in Ss:
+            for tail in tails:
+                sh = [2, 3, 2] + list(tail)
+                if sd is not None:
+                    sh[sd] = S
+                out.append((sh, sd))
+    return out
+
+
+def _sys_classes(sh, sd):
+    d = dims({'shape': sh, 'sdim': sd})
+    return [c for c in PREF if class_ok(sh, c) and not (PYCLS[c][1] == 'slices' and sd is None)
+            and (c == 'GConst' or mult(d, c) != 1)]
+
+
+def systematic_subset_cases():
+    """A DETERMINISTIC block of small get_subset cases (every seed contains all of them): shapes of _sys_subset_configs
+    x EVERY classification a single key can have (valid, multiplicity != 1; in general NOT canonical) x value pattern
+    {all different, constant per volume, repeating per volume, constant}.  'all different': every dim with the first and the
+    last index; the other patterns (where _simplify has work to do): the slice / time / vector dims with the last index.
+    Plus two-key cases (one key per pair of classes).  Combinations that show the mechanism of the open finding N2 are left
+    out (the corpus covers them)."""
+    out = []
+    for sh, sd in _sys_subset_configs():
+        d = dims({'shape': sh, 'sdim': sd})
+        classes = _sys_classes(sh, sd)
+        exts = []
+        for c in classes:
+            for pat in (('alldiff', 'const') if c == 'GConst' else ('alldiff', 'constvol', 'repvol', 'const')):
+                exts.append((pat, c, mk_E(sh, sd, copy.deepcopy(SYS_AFF), {'k': (c, _sys_values(c, mult(d, c), d[0], pat)[:1] if c == 'GConst'
+                                                                                else _sys_values(c, mult(d, c), d[0], pat))})))
+        varying = [c for c in classes if c != 'GConst']
+        for a, b in zip(varying, varying[1:]):
+            exts.append(('alldiff', a + '+' + b, mk_E(sh, sd, copy.deepcopy(SYS_AFF), {
+                'k': (a, _sys_values(a, mult(d, a), d[0], 'alldiff')), 'k2': (b, [v + 500 for v in _sys_values(b, mult(d, b), d[0], 'repvol')])})))
+        for pat, cname, E in exts:
+            for dim in range(len(sh)):
+                if n2_vanishing_base(E, dim) is not None:
+                    continue
+                if pat != 'alldiff' and not (dim == sd or dim >= 3):
+                    continue
+                idxs = sorted({0, sh[dim] - 1}) if pat == 'alldiff' else [sh[dim] - 1]
+                for idx in idxs:
+                    out.append({'kind': 'sys/%s%s/sd%s/%s/%s/dim%d' % (shape_family(sh), '-t1' if 1 in sh[3:] else '', sd, cname, pat, dim),
+                                'ext': E, 'dim': dim, 'idx': idx})
+    return out
+
+
+def systematic_split_cases():
+    """Deterministic NiftiWrapper.split cases: every shape of _sys_subset_configs (outside N2's mechanism), one key per valid
+    classification ('all different' values), matching image, every split dimension and dim=None."""
+    out = []
+    for sh, sd in _sys_subset_configs():
+        d = dims({'shape': sh, 'sdim': sd})
+        ents = {}
+        for i, c in enumerate(_sys_classes(sh, sd)):
+            vals = [1000 * (i + 1) + v for v in _sys_values(c, mult(d, c), d[0], 'alldiff')]
+            ents['k' + c] = (c, vals[:1] if c == 'GConst' else vals)
+        E = mk_E(sh, sd, copy.deepcopy(SYS_AFF), ents)
+        img = {'shape': list(sh), 'slice': sd, 'aff': copy.deepcopy(SYS_AFF)}
+        for dim in list(range(len(sh))) + [None]:
+            dd = dim
+            if dd is None:
+                dd = len(sh) - 1
+                if dd == 2:
+                    dd = sd
+            if dd is not None and n2_vanishing_base(E, dd if dd != sd else dd) is not None:
+                continue
+            out.append({'kind': 'sys-split/%s/sd%s/dim%s' % (shape_family(sh), sd, dim), 'ext': E, 'img': img, 'dim': dim})
+    return out
+
+
 def gen_subset_case(rng, tier='quick'):
     sh, sdim = gen_shape(rng, tier, trailing1=TRAILING1_PROB)
     E = gen_ext(rng, tier, shape=sh, sdim=sdim, widen=rng.choice([0.0, 0.3, 0.7]))
@@ -972,7 +1141,7 @@ class SubsetPart:
     @staticmethod
     def gen_cases(rng, tier):
         n_rand, n_all = (500, 40) if tier == 'quick' else (4000, 400)
-        cases = [gen_subset_case(rng, tier) for _ in range(n_rand)]
+        cases = systematic_subset_cases() + [gen_subset_case(rng, tier) for _ in range(n_rand)]
         for _ in range(n_all):
             E = gen_ext(rng, tier, widen=rng.choice([0.0, 0.5]), trailing1=TRAILING1_PROB)
             for c in gen_subset_all(E):
@@ -1241,7 +1410,7 @@ class SplitPart:
     @staticmethod
     def gen_cases(rng, tier):
         n = 150 if tier == 'quick' else 1200
-        cases = []
+        cases = systematic_split_cases()
         for _ in range(n):
             E = gen_ext(rng, tier, widen=rng.choice([0.0, 0.4]), nkeys=rng.randint(1, 4),
                         aff=gen_affine(rng, rng.choice(['dense', 'dense', 'perm', 'diag'])))
